@@ -269,80 +269,7 @@ func c19(c *core.Ctx) {
 	}
 
 	rF := c.Rule("C19.flags", "every change flag that SaveFunction reads is cleared by a function SaveFunction calls on the new and modified paths before the guard can be released", 8)
-	{
-		// flags read by SaveFunction: Is<X>Changed methods -> the field they return
-		info := sf.Info()
-		flagFields := map[*types.Var]string{}
-		core.Calls(sf.Decl.Body, false, func(call *ast.CallExpr) {
-			fo := core.Callee(info, call)
-			if fo == nil || !strings.HasPrefix(fo.Name(), "Is") || !strings.HasSuffix(fo.Name(), "Changed") {
-				return
-			}
-			// resolve to the concrete treasure method
-			m := p.FnOpt(pkgTreasure + ".treasure." + fo.Name())
-			if m == nil {
-				return
-			}
-			c.Touch(m)
-			ast.Inspect(m.Decl.Body, func(x ast.Node) bool {
-				if r, ok := x.(*ast.ReturnStmt); ok && len(r.Results) == 1 {
-					if f := core.FieldOf(m.Info(), r.Results[0]); f != nil {
-						flagFields[f] = fo.Name()
-					}
-				}
-				return true
-			})
-		})
-		// reset function: a treasure method called in SaveFunction that assigns false to flag fields
-		fl := core.NewFlow(p, info, sf.Decl.Body)
-		cleared := map[*types.Var]bool{}
-		var resetCalls []*ast.CallExpr
-		core.Calls(sf.Decl.Body, false, func(call *ast.CallExpr) {
-			fo := core.Callee(info, call)
-			if fo == nil {
-				return
-			}
-			m := p.FnOpt(pkgTreasure + ".treasure." + fo.Name())
-			if m == nil || m.Decl.Body == nil {
-				return
-			}
-			n := 0
-			for _, a := range core.Accesses(m.Info(), m.Decl.Body, nil, false) {
-				if a.Write && a.Form == "assign-false" {
-					if _, isFlag := flagFields[a.Field]; isFlag {
-						cleared[a.Field] = true
-						n++
-					}
-				}
-			}
-			if n > 0 {
-				resetCalls = append(resetCalls, call)
-				c.Touch(m)
-			}
-		})
-		for f, getter := range flagFields {
-			rF.Check(cleared[f], sf.Key+":"+f.Name(), sf.Decl.Pos(), "cleared after a processed save",
-				"flag "+f.Name()+" (read through "+getter+") is never cleared on the save path: after the first change every later save of the record is classified 'modified' and publishes an event although nothing changed")
-		}
-		// each guard release in SaveFunction is dominated by a reset call
-		core.Calls(sf.Decl.Body, false, func(call *ast.CallExpr) {
-			fo := core.Callee(info, call)
-			if fo == nil || fo.Name() != "ReleaseTreasureGuard" {
-				return
-			}
-			lr := fl.MustLocate(call)
-			ok := false
-			for _, rc := range resetCalls {
-				if l, found := fl.Locate(rc); found && fl.Dominates(l, lr) {
-					ok = true
-				}
-			}
-			rF.Check(ok, sf.Key+":reset-before-release", call.Pos(), "flags cleared while the guard is still held", "change flags are cleared after (or never before) the guard release: the next holder's flags can be wiped")
-		})
-		if len(flagFields) < 5 {
-			rF.Bad(sf.Key+":flags", sf.Decl.Pos(), "SaveFunction no longer classifies saves through Is...Changed flags (rule needs review)")
-		}
-	}
+	flagsRule(c, rF)
 
 	rU := c.Rule("C19.unit", "Event.EventTime is assigned UnixNano values and reaches time.Unix only as the nanosecond argument", 3)
 	{
@@ -376,6 +303,68 @@ func c19(c *core.Ctx) {
 			f := core.FieldOf(info, stripConv(info, e))
 			return f != nil && f.Name() == "EventTime"
 		}, "event time")
+	}
+
+	// C19.registry: a subscription is made for a swamp name and outlives the in-memory instance.
+	rReg := c.Rule("C19.registry", "entries of the subscriber registries (hydra.eventSubscribers / infoSubscribers) are removed only on the unsubscribe paths, never by the function that takes a closed swamp out of the live map or anything it calls: a swamp that is idle-closed or auto-destroyed while subscribed is re-created by the next write, and SummonSwamp turns event sending on only if the registry still knows the subscribers", 1)
+	{
+		cg := c.CG()
+		_, hst := p.StructOf(pkgHydra, "hydra")
+		hf := core.StructFields(hst)
+		regs := map[*types.Var]bool{}
+		for _, nm := range []string{"eventSubscribers", "infoSubscribers"} {
+			if f := hf[nm]; f != nil {
+				regs[f] = true
+			}
+		}
+		liveF := hf["swamps"]
+		isDel := func(form string) bool {
+			switch form {
+			case "method:Delete", "method:LoadAndDelete", "method:CompareAndDelete", "method:Clear", "delete":
+				return true
+			}
+			return false
+		}
+		var closers []*core.Func
+		for _, g := range p.FuncsIn(pkgHydra) {
+			if g.Decl.Body == nil || liveF == nil {
+				continue
+			}
+			for _, a := range core.Accesses(g.Info(), g.Decl.Body, map[*types.Var]bool{liveF: true}, true) {
+				if isDel(a.Form) {
+					closers = append(closers, g)
+				}
+			}
+		}
+		if len(regs) == 0 || len(closers) == 0 {
+			rReg.Bad(pkgHydra+".hydra:registries", token.NoPos, "cannot identify the subscriber registries or the function that removes closed swamps from the live map (rule needs review)")
+		} else {
+			n := 0
+			for _, g := range p.FuncsIn(pkgHydra) {
+				if g.Decl.Body == nil {
+					continue
+				}
+				for _, a := range core.Accesses(g.Info(), g.Decl.Body, regs, true) {
+					if !isDel(a.Form) {
+						continue
+					}
+					n++
+					c.Touch(g)
+					onClose := ""
+					reachers := cg.ReachersOf(g)
+					for _, cl := range closers {
+						if cl == g || reachers[cl] {
+							onClose = cl.Obj.Name()
+						}
+					}
+					rReg.Check(onClose == "", g.Key+":"+a.Field.Name()+"."+strings.TrimPrefix(a.Form, "method:"), a.Node.Pos(), "removed on an unsubscribe path only",
+						"the subscribers of a swamp name are forgotten when the swamp instance closes ("+onClose+" removes the registry entry): after an idle close or an auto-destroy the re-created swamp never starts sending events, the stream stays open and every later change is silently dropped")
+				}
+			}
+			if n == 0 {
+				rReg.Ok(pkgHydra+":no-registry-removal", token.NoPos, "registry entries are never removed")
+			}
+		}
 	}
 
 	rSync := c.Rule("C19.sync", "the subscriber callback sends the event on the stream before it returns: the Send/SendMsg call is not inside a go statement or a function literal handed to another function (the writer holds the record's guard while the callback runs - C19.order - and that alone orders the events of one record on the stream)", 2)
@@ -475,6 +464,87 @@ func c19(c *core.Ctx) {
 		})
 		for _, k := range []string{"StatusNew", "StatusModified", "StatusDeleted"} {
 			rG.Check(seen[k], f.Key+":case "+k, f.Decl.Pos(), "handled", "events of kind "+k+" are dropped by the gateway")
+		}
+	}
+}
+
+// flagsRule (C19.flags, shared with C09.flagreset): the change flags are cleared on the save path while the guard
+// is still held.
+func flagsRule(c *core.Ctx, rF *core.Rule) {
+	p := c.P
+	sf := c.Fn(pkgSwamp + ".swamp.SaveFunction")
+	{
+		// flags read by SaveFunction: Is<X>Changed methods -> the field they return
+		info := sf.Info()
+		flagFields := map[*types.Var]string{}
+		core.Calls(sf.Decl.Body, false, func(call *ast.CallExpr) {
+			fo := core.Callee(info, call)
+			if fo == nil || !strings.HasPrefix(fo.Name(), "Is") || !strings.HasSuffix(fo.Name(), "Changed") {
+				return
+			}
+			// resolve to the concrete treasure method
+			m := p.FnOpt(pkgTreasure + ".treasure." + fo.Name())
+			if m == nil {
+				return
+			}
+			c.Touch(m)
+			ast.Inspect(m.Decl.Body, func(x ast.Node) bool {
+				if r, ok := x.(*ast.ReturnStmt); ok && len(r.Results) == 1 {
+					if f := core.FieldOf(m.Info(), r.Results[0]); f != nil {
+						flagFields[f] = fo.Name()
+					}
+				}
+				return true
+			})
+		})
+		// reset function: a treasure method called in SaveFunction that assigns false to flag fields
+		fl := core.NewFlow(p, info, sf.Decl.Body)
+		cleared := map[*types.Var]bool{}
+		var resetCalls []*ast.CallExpr
+		core.Calls(sf.Decl.Body, false, func(call *ast.CallExpr) {
+			fo := core.Callee(info, call)
+			if fo == nil {
+				return
+			}
+			m := p.FnOpt(pkgTreasure + ".treasure." + fo.Name())
+			if m == nil || m.Decl.Body == nil {
+				return
+			}
+			n := 0
+			for _, a := range core.Accesses(m.Info(), m.Decl.Body, nil, false) {
+				if a.Write && a.Form == "assign-false" {
+					if _, isFlag := flagFields[a.Field]; isFlag {
+						cleared[a.Field] = true
+						n++
+					}
+				}
+			}
+			if n > 0 {
+				resetCalls = append(resetCalls, call)
+				c.Touch(m)
+			}
+		})
+		for f, getter := range flagFields {
+			rF.Check(cleared[f], sf.Key+":"+f.Name(), sf.Decl.Pos(), "cleared after a processed save",
+				"flag "+f.Name()+" (read through "+getter+") is never cleared on the save path: after the first change every later save of the record is classified 'modified' and publishes an event although nothing changed")
+		}
+		// each guard release in SaveFunction is dominated by a reset call
+		core.Calls(sf.Decl.Body, false, func(call *ast.CallExpr) {
+			fo := core.Callee(info, call)
+			if fo == nil || fo.Name() != "ReleaseTreasureGuard" {
+				return
+			}
+			lr := fl.MustLocate(call)
+			ok := false
+			for _, rc := range resetCalls {
+				if l, found := fl.Locate(rc); found && fl.Dominates(l, lr) {
+					ok = true
+				}
+			}
+			rF.Check(ok, sf.Key+":reset-before-release", call.Pos(), "flags cleared while the guard is still held", "change flags are cleared after (or never before) the guard release: the next holder's flags can be wiped")
+		})
+		if len(flagFields) < 5 {
+			rF.Bad(sf.Key+":flags", sf.Decl.Pos(), "SaveFunction no longer classifies saves through Is...Changed flags (rule needs review)")
 		}
 	}
 }
